@@ -9,6 +9,14 @@ pub open spec fn checksig_preimage_ok(tx: Transaction, i: int, f: SigHash, cs_of
             (forkid6(f) ==> p == preimage_forkid(tx, i, f, ser_bits(sub), v)) && (legacy6(f) ==> p == preimage_legacy(tx, i, f, ser_bits_nocs(sub))) }) })
 }
 
+// when CHECKSIG can compute the preimage at all (standard flags): input present with locking script and declared value,
+// code separator offset inside the locking script, and for SINGLE a matching output
+pub open spec fn preimage_available(tx: Transaction, i: int, f: SigHash, cs_offset: int) -> bool {
+    0 <= i < tx.inputs@.len() && tx.inputs@[i].locking_script is Some && tx.inputs@[i].satoshis is Some && ({
+        let lock = tx.inputs@[i].locking_script->Some_0.0@; let unl = tx.inputs@[i].unlocking_script.0@.len() as int;
+        let off = if cs_offset >= unl { cs_offset - unl } else { 0int };
+        off <= lock.len() && !(base(f) == 3 && i >= tx.outputs@.len()) })
+}
 // ---- CHECKMULTISIG ----
 pub open spec fn flag_byte(f: SigHash) -> u8 { f as u8 }
 pub open spec fn flag_of(b: u8) -> SigHash { choose|f: SigHash| #[trigger] flag_byte(f) == b }
@@ -38,4 +46,19 @@ pub open spec fn ms_greedy(tx: Transaction, i: int, cs_offset: int, sigs: Seq<Ve
     if si < 0 || ki < 0 || si >= sigs.len() || ki >= keys.len() { 0 }
     else if ms_valid(tx, i, cs_offset, sigs[si]@, keys[ki]@) { 1 + ms_greedy(tx, i, cs_offset, sigs, keys, si + 1, ki + 1) }
     else { ms_greedy(tx, i, cs_offset, sigs, keys, si, ki + 1) }
+}
+
+// ---- completeness: what the library's own signing produces satisfies CHECKSIG's acceptance condition ----
+// (d: signing key, k: any nonce, p: the preimage CHECKSIG computes, f: the flag appended to the DER signature,
+//  compressed: either SEC1 form of the key) - from the k256 axioms sign->verify, DER and SEC1 round trips
+pub proof fn lemma_library_signature_satisfies_checksig(d: Seq<u8>, k: Seq<u8>, p: Seq<u8>, f: SigHash, compressed: bool)
+    requires valid_secret(d), ecdsa_sign(d, k, reduce_be(spec_sha256d(p))) is Some,
+    ensures ({ let z = reduce_be(spec_sha256d(p)); let sg = ecdsa_sign(d, k, z)->Some_0.0; let sigbytes = der_enc(sg).push(f as u8); let pk = sec1_form(pub_of(d), compressed);
+        sigbytes.len() > 0 && sigbytes.last() == f as u8 && SigHash::valid_disc_from_u8(sigbytes.last() as int) && der_dec(sigbytes.drop_last()) == Some(sg)
+        && sec1_valid(pk) && ecdsa_verify(sec1_point(pk), z, sg) }),
+{
+    let z = reduce_be(spec_sha256d(p)); let sg = ecdsa_sign(d, k, z)->Some_0.0;
+    axiom_sign_valid_scalars(d, k, z); axiom_der_roundtrip(sg); axiom_pub_valid(d, compressed); axiom_sec1_forms(pub_of(d), compressed); axiom_sign_verifies(d, k, z);
+    assert(der_enc(sg).push(f as u8).drop_last() == der_enc(sg));
+    reveal(SigHash::valid_disc_from_u8);
 }
